@@ -33,6 +33,7 @@ PROJECTS_QUICK = [
     {"name": "issue7234", "repo_path": "tests/bug_samples/issue7234.cairo", "starknet": True, "test_attrs": True,
      "edition": "2023_10"},
     "two_crates",
+    "cycles",
 ]
 PROJECTS_THOROUGH = PROJECTS_QUICK + [
     {"name": "account", "repo_path": CONTRACTS + "account.cairo", "starknet": True, "edition": "2024_07"},
@@ -54,6 +55,8 @@ def resolve_project(p):
     """Project description -> the JSON object the harness reads (absolute path or inline sources)."""
     if p == "two_crates":
         return dict(cdb_corpus.two_crate_project(), k="project")
+    if p == "cycles":
+        return dict(cdb_corpus.cycles_project(), k="project")
     q = dict(p, k="project")
     q["path"] = os.path.join(REPO, q.pop("repo_path"))
     if not os.path.exists(q["path"]):
